@@ -58,7 +58,7 @@ var reIndex = regexp.MustCompile(`index out of range \[-?\d+\]`)
 const workerMemKB = 6 * 1024 * 1024 // ulimit -v for a worker (KiB)
 
 // caseTimeout: a single case takes milliseconds; the longest legitimate silence of a worker is far below this
-const caseTimeout = 30 * time.Second
+const caseTimeout = 60 * time.Second
 
 // parent: N workers; a worker that dies is restarted after the case it died on.
 func runParent(r *vk.Run, n int, handle func(i int, res workerResult)) {
